@@ -220,6 +220,15 @@ pub fn campaigns(ctx: &Ctx) -> Stats {
         let opi = ((i / 3) % 5) as usize;
         Some(ew_case(&pairs[(i / 15) as usize], opi, tri, with_seed))
     }));
+    // the same operation built twice on the same operands and summed: every operand has two consumers in one pass,
+    // so its second contribution meets a pending one (broadcast operands: the contributions are reduced one by one)
+    st.merge(ctx.run_indexed("elementwise-all-pairs-two-uses", np * 5 * 3, None, |i| {
+        let tri = (i % 3) as usize;
+        let opi = ((i / 3) % 5) as usize;
+        let mut c = ew_case(&pairs[(i / 15) as usize], opi, tri, true);
+        c.uses = 2;
+        Some(c)
+    }));
     // value patterns (zeros, ones, equal, zero-sum, one-hot, exact zeros in between, powers of two) and sizes around
     // typical block lengths, for every operation with a derivative
     {
